@@ -258,7 +258,9 @@ func parseContractFile(path string) (*ContractFile, error) {
 			case "requires", "ensures", "assigns", "assume", "use":
 				c := &RawClause{Kind: word, Loop: -1, Line: ln}
 				c.Label, c.Props, c.Text = splitLabel(rest)
-				cur.Clauses = append(cur.Clauses, c)
+				if !layerSkips(c.Props) {
+					cur.Clauses = append(cur.Clauses, c)
+				}
 			case "loop":
 				// loop N invariant|decreases|assigns [label:] expr
 				fs := strings.Fields(rest)
@@ -273,7 +275,9 @@ func parseContractFile(path string) (*ContractFile, error) {
 				r := strings.TrimSpace(rest[strings.Index(rest, kind)+len(kind):])
 				c := &RawClause{Kind: kind, Loop: n, Line: ln}
 				c.Label, c.Props, c.Text = splitLabel(r)
-				cur.Clauses = append(cur.Clauses, c)
+				if !layerSkips(c.Props) {
+					cur.Clauses = append(cur.Clauses, c)
+				}
 			default:
 				return fmt.Errorf("%s:%d: unknown clause %q", path, ln, word)
 			}
@@ -317,6 +321,24 @@ func parseContractFile(path string) (*ContractFile, error) {
 }
 
 // splitLabel parses "[label] {C01,C02} expr" prefixes.
+// activeLayer: the property being checked. A clause that carries its own
+// property tags {Cxx ...} belongs to a contract layer: it is part of the
+// contract (assumed at call sites, proved in the body) only in runs for one of
+// those properties. Untagged clauses are part of every run.
+var activeLayer string
+
+func layerSkips(props []string) bool {
+	if activeLayer == "" || len(props) == 0 {
+		return false
+	}
+	for _, p := range props {
+		if p == activeLayer {
+			return false
+		}
+	}
+	return true
+}
+
 func splitLabel(s string) (label string, props []string, expr string) {
 	s = strings.TrimSpace(s)
 	for {
